@@ -137,6 +137,7 @@ class SSHChannel(Generic[AnyStr], SSHPacketHandler):
         self._recv_paused: Union[bool, str] = 'starting'
         self._recv_buf: List[Tuple[bytes, DataType]] = []
         self._recv_buf_len = 0
+        self._recv_eof_pending = False
 
         self._request_queue: List[Tuple[str, SSHPacket, bool]] = []
 
@@ -369,6 +370,14 @@ class SSHChannel(Generic[AnyStr], SSHPacketHandler):
                     self.write_eof()
 
         if not self._recv_buf and self._recv_state == 'close_pending':
+            if self._recv_eof_pending:
+                # The peer's EOF was still waiting for buffered data to
+                # be delivered when its close arrived
+                self._recv_eof_pending = False
+
+                if self._session is not None:
+                    self._session.eof_received()
+
             self._recv_state = 'closed'
             self._loop.call_soon(self._cleanup, exc)
 
@@ -655,6 +664,7 @@ class SSHChannel(Generic[AnyStr], SSHPacketHandler):
 
         self._close_send()
 
+        self._recv_eof_pending = self._recv_state == 'eof_pending'
         self._recv_state = 'close_pending'
         self._flush_recv_buf()
 
